@@ -1,6 +1,6 @@
 (* C12 - dispatch exactly once, in order; unknown types ignored; bad payload closes; peer requests answered. *)
 From Coq Require Import NArith ZArith List Bool.
-From Verif Require Import Generated.GenRegistry Model.Conn Proofs.ConnDispatch.
+From Verif Require Import Generated.GenRegistry Model.Conn Proofs.ConnDispatch Proofs.ConnRun Proofs.Product Proofs.ConnPair.
 Import ListNotations.
 
 (* a well-formed message of a known type: exactly the subscribers registered for the type when the dispatch starts,
@@ -53,4 +53,29 @@ Example C12_reentrant :
 Proof. vm_compute. reflexivity. Qed.
 Example C12_id0_and_beyond :
   forallb (fun ty => negb (registered ty)) [0; 124; 65535; 70000; 1180591620717411303424]%N = true.
+Proof. vm_compute. reflexivity. Qed.
+
+(* ---------------------------------------------------------------- several sessions in one process *)
+(* Two connections of one process are the interleaving product of two connection machines (Proofs/ConnPair.v): what each one
+   dispatches, answers and writes is what it does in its own run on its own events; in particular a write that session A's
+   transport refuses changes nothing in what session B answers to a peer request. (That the code keeps no write state outside
+   the connection is what neighbour_answer_probe of checks/c12.py tests.) *)
+Theorem C12_neighbour_sessions_independent : forall ls a b a' b' os,
+  pair_run (a, b) ls = Some ((a', b'), os) ->
+  run a (mine ls) = Some (a', my_obs os) /\ run b (theirs ls) = Some (b', their_obs os).
+Proof. exact pair_projects. Qed.
+
+(* non-vacuity: A and B connect in turns; A's device pings it and A's transport refuses the answer (A closes); then B's
+   device pings B: B's observations for that read are exactly one write of a PingResponse *)
+Definition c12_hello : msg := mkMsg T_HELLO_RESP true 0 1 NameEmpty false.
+Definition c12_ping : msg := mkMsg T_PING_REQ true 0 0 NameEmpty false.
+Definition c12_connect : list label :=
+  [LStart; LResolveDone None 1; LWake TStart; LTcpDone None; LWake TStart; LIntr true;
+   LFinish false; LMade; LMadeWaiter; LWake TFinish; LData [DFrame c12_hello]; LWake TFinish; LIntr false].
+Example C12_neighbour_answer :
+  option_map (fun r => (cs (fst (fst r)), cs (snd (fst r)), last (snd r) (OPA _ _ [])))
+    (pair_run (init false false 20480 [], init false false 20480 [])
+       (interleave c12_connect c12_connect ++
+        [PA label label (LWriteFails true); PA label label (LData [DFrame c12_ping]); PB label label (LData [DFrame c12_ping])]))
+  = Some (Closed, Connected, OPB _ _ [OWrite [T_PING_RESP]]).
 Proof. vm_compute. reflexivity. Qed.
